@@ -20,7 +20,8 @@ func trimGroup(v string) string {
 
 // replaySearch declares the rules of the case in one real ChainStorage and asks the requests in order (the
 // paths cache persists over the requests). The verdict per answer is membership in the admissible set computed
-// by TLC; answers outside the set are handed back for judgement by TLC (ConvSearchTrace), never judged here.
+// by TLC ("no chain" must coincide with TLC's unreachable); answers outside the set are handed back for judgement by
+// TLC (ConvSearchTrace), never judged here.
 func replaySearch(n int, c Case) Result {
 	cs := conversion.NewChainStorage()
 	chain := cs.Get(crdName)
@@ -37,12 +38,8 @@ func replaySearch(n int, c Case) Result {
 			res.Answers = append(res.Answers, []int{})
 		}
 		if len(ans) == 0 {
-			if q.Reach && res.OK {
-				res.OK = false
-				res.Q = qi
-				res.Sig = "C15/search/not-found"
-				res.Detail = fmt.Sprintf("rules %v: request %d %s->%s got no chain although one exists (e.g. %s); earlier requests: %s",
-					c.Rules, qi+1, q.From, q.To, showChain(c, q.Adm[0]), showQueries(c, qi))
+			if q.Reach {
+				res.NotFound = append(res.NotFound, qi)
 			}
 			continue
 		}
@@ -63,6 +60,9 @@ func replaySearch(n int, c Case) Result {
 			if a != b && !(trimGroup(a) == trimGroup(b) && (a == trimGroup(a) || b == trimGroup(b))) && strings.Contains(b, trimGroup(a)) {
 				p.Hint = "substring-join"
 			}
+		}
+		if p.Hint == "" && len(ans) >= 4 {
+			p.Hint = "long-path" // four or more steps: the path was extended from a cached path with spare capacity
 		}
 		res.Pending = append(res.Pending, p)
 	}
